@@ -251,3 +251,55 @@ Theorem C01_simops_ops_source_uses_translated_order : forall c given strip fuel,
     simops_ops_src c actrl strip = Some (map (row_of_sop actrl) (build_ops c strip)) /\
     KV.Gen.TraversalsSrc.s_nodes_src c = Some (s_nodes c).
 Proof. exact KV.Proofs.SimOpsTopoSrc.simops_ops_source_uses_translated_order. Qed.
+
+(** ---- source tie of the logic simulator's DRIVER code (round 3): the evaluation loop of logic_sim._prop_cpu -- loop header, c_locs
+    re-mapping, the if / elif chain of opcode guards in source order, every branch -- is translated from the CURRENT source by
+    translate/gen_logicsim_drivers.py (Gen/LogicSimDriversSrc.v; meaning of the emitted data: Model/LogicSimDrvPrelude.v, one lane).
+    The chains of both 2-valued copies select, for every opcode constant of sim.py, ONE assignment to c[o0] over c[i0..i3] that computes
+    what the table TRACED by translate/gen_dispatch.py computes on all 16 operand rows; a guard that fires belongs to a known opcode. *)
+From Coq Require Import ZArith.
+From KV Require Import Gen.SimTables Gen.LogicSimDispatch Model.LogicSimModel.
+From KV Require Import Model.WaveDrvPrelude Model.LogicSimDrvPrelude Gen.LogicSimDriversSrc.
+From KV Require Proofs.LogicSimDriversProofs Proofs.LogicSimDriversExample.
+Theorem C01_logicsim_chain2_agrees_trace :
+  forallb (KV.Proofs.LogicSimDriversProofs.chain2_chk (l_chain loop_prop_cpu) disp2_cpu) lut_table = true /\
+  forallb (KV.Proofs.LogicSimDriversProofs.chain2_chk (l_chain loop_cprop2_cb) disp2_cb) lut_table = true /\
+  KV.Proofs.LogicSimDriversProofs.guards_known (l_chain loop_prop_cpu) = true /\
+  KV.Proofs.LogicSimDriversProofs.guards_known (l_chain loop_cprop2_cb) = true.
+Proof. exact (conj KV.Proofs.LogicSimDriversProofs.chain2_cpu_ok (conj KV.Proofs.LogicSimDriversProofs.chain2_cb_ok
+              (conj KV.Proofs.LogicSimDriversProofs.guards_cpu_ok KV.Proofs.LogicSimDriversProofs.guards_2cb_ok))). Qed.
+
+(* the translated loop of _prop_cpu over the op rows of ANY SimOps result whose op indices are allocated, on any memory, IS c_prop of the
+   compared model (lane by lane; emb2 b = the one plane [b]) ... *)
+Theorem C01_logicsim_loop_source_is_model : forall so m nl t0 t1, KV.Proofs.LogicSimDriversProofs.ops_located so ->
+  run_loop 1 loop_prop_cpu (so_locs so) nl t0 t1 None (map KV.Proofs.LogicSimDriversProofs.row_of (so_ops so)) (map KV.Proofs.LogicSimDriversProofs.emb2 m)
+  = (map KV.Proofs.LogicSimDriversProofs.emb2 (c_prop false sem2 so m), []).
+Proof. exact KV.Proofs.LogicSimDriversProofs.prop_cpu_source_is_model. Qed.
+
+(* ... and that side condition holds for EVERY build() result (all four option combinations): it follows from the memory-map certificate.
+   PARTIAL with respect to the intended C01_logicsim_drivers_source_is_model: what is missing is the equality of the PINNED per-lane
+   meaning of LogicSim.s_to_c / c_to_s / s_ppo_to_ppi / cycle (Model/LogicSimDrvPrelude.v s_to_c_src / c_to_s_src / s_ppo_to_ppi_src /
+   cycle_src) with s_to_c / c_to_s / ppo_to_ppi / cycles of Model/LogicSimModel.v as a THEOREM; both sides are compared with the real
+   methods on generated arrays on every run (harness/lsim_drivers_corr.py and the LogicSim correspondence).
+   Intended statement:  forall k, rel L (m, s0, s1) -> rel (cycle_src k (s_to_c_src ..) (c_to_s_src ..) (s_ppo_to_ppi_src ..) (loop) L)
+                                                          (cycles k false sem2 so n_io m s0 s1). *)
+Theorem C01_logicsim_drivers_source_is_model_partial : forall c caps cmin reuse strip so m,
+  wf_netlist c -> comb_acyclic c -> (0 < cmin)%N -> KV.Proofs.EndToEnd.gates_known c -> (strip = true -> KV.Proofs.ReuseStrip.forks_ok c) ->
+  build c caps cmin reuse strip = Some so ->
+  c_prop_src loop_prop_cpu loop_cprop2_cb loop_cprop4 loop_cprop8 2 (so_locs so) (so_nlines so)
+             (Z.of_nat (so_nlines so + 1)) (Z.of_nat (so_nlines so + 2)) None
+             (map KV.Proofs.LogicSimDriversProofs.row_of (so_ops so)) (map KV.Proofs.LogicSimDriversProofs.emb2 m)
+  = (map KV.Proofs.LogicSimDriversProofs.emb2 (c_prop false sem2 so m), []).
+Proof.
+  intros c caps cmin reuse strip so m WF AC CM GK FK B.
+  exact (KV.Proofs.LogicSimDriversProofs.prop_cpu_source_is_model so m _ 0%Z 0%Z
+           (KV.Proofs.LogicSimDriversProofs.build_ops_located c caps cmin reuse strip so WF AC CM GK FK B)).
+Qed.
+
+Theorem C01_logicsim_loop_source_nonvacuous : exists so,
+  build KV.Proofs.ReuseProofs.ReuseExample.exR (repeat 1%N 7) 1%N true true = Some so /\ KV.Proofs.LogicSimDriversProofs.ops_located so /\
+  (2 <= List.length (so_ops so))%nat /\
+  let m := [true; false; true; true; false; true; false; true; true] in
+  run_loop 1 loop_prop_cpu (so_locs so) (so_nlines so) 0%Z 0%Z None (map KV.Proofs.LogicSimDriversProofs.row_of (so_ops so)) (map KV.Proofs.LogicSimDriversProofs.emb2 m)
+  = (map KV.Proofs.LogicSimDriversProofs.emb2 (c_prop false sem2 so m), []) /\ c_prop false sem2 so m <> m.
+Proof. exact KV.Proofs.LogicSimDriversExample.source_loop_example. Qed.
